@@ -507,6 +507,9 @@ func runArrayProgram(e *arrEnv, nOps, sizeProf, posProf, opProf int) {
 			if err != nil {
 				e.violation("C05", "VerifyArray: "+err.Error())
 			}
+			if bad := hx.ArraySizeBand(e.ps, atree.VerifArrayRoot(e.arr)); bad != "" {
+				e.violation("C05", "size band: "+bad)
+			}
 			// C09: one live array, everything handed back has been disposed of: exactly its slabs remain
 			e.health()
 			e.st.Ops += 0
